@@ -14,8 +14,13 @@
         texts : ((bytes ok tag hasrate rate) ...)   the parse table
         steps : ((0) | (1 m) | (2 m ti)) ...        Missing | Unreadable m | File m texts[ti]
         -> (table-echo ((err stopped rate active nset) ...))
-   (4 fmt texts (m0 ti0) steps)            same model; the harness runs the real reloader thread *)
+   (4 fmt texts (m0 ti0) steps)            same model; the harness runs the real reloader thread
+   (5 configs seq probes)                  GLOBAL logger (child process): init_config(configs[seq[0]]), then
+        handle.set_config(configs[seq[i]]); after each, every probe is logged through the `log!` macro
+        (Model/Facade.v: the macro consults log::max_level, which set_config must have updated)
+        -> per step, per probe ((tag idx) ...) *)
 From L4 Require Import Common.Val Model.Routing Model.Swap Model.Reloader.
+From L4 Require Model.Facade.
 Local Open Scope N_scope.
 
 Definition dec_logger (v : vl) : option logger :=
@@ -197,6 +202,34 @@ Definition run_reload (texts init steps : vl) : vl :=
   | None => VBad
   end.
 
+(* ---- the global facade after each swap (Model/Facade.v = C02's model of the macro) ---- *)
+Fixpoint facade_steps (ost : option Facade.fstate) (cs : list tcfg) (prs : list (str * N)) : list vl :=
+  match cs with
+  | [] => []
+  | c :: r =>
+    let ost' := match ost with
+                | None => Facade.init (snd c)
+                | Some st => Facade.set_config st (snd c)
+                end in
+    match ost' with
+    | Some st =>
+      VL (map (fun p => VL (map (fun i => VL [VN (fst c); VN (N.of_nat i)])
+                                (Facade.macro_log st (fst p) (snd p)))) prs)
+      :: facade_steps ost' r prs
+    | None => [VErr 1]
+    end
+  end.
+
+Definition run_facade (cfgs sq probes : vl) : vl :=
+  match val_list dec_tcfg cfgs, val_list val_N sq, val_list dec_probe probes with
+  | Some cs, Some ids, Some prs =>
+    match opt_map (fun i => nth_error cs (N.to_nat i)) ids with
+    | Some seqc => VL (facade_steps None seqc prs)
+    | None => VBad
+    end
+  | _, _, _ => VBad
+  end.
+
 Definition c15_run (v : vl) : vl :=
   match v with
   | VL [VN 0; cfgs; init; reent; progs; sched] => run_sched cfgs init reent progs sched
@@ -204,5 +237,6 @@ Definition c15_run (v : vl) : vl :=
   | VL [VN 2; cfgs; old; new; probe] => run_drop cfgs old new probe
   | VL [VN 3; _; texts; init; steps; _] => run_reload texts init steps
   | VL [VN 4; _; texts; init; steps; _] => run_reload texts init steps
+  | VL [VN 5; cfgs; sq; probes] => run_facade cfgs sq probes
   | _ => VBad
   end.
